@@ -471,7 +471,7 @@ pub fn run_spaces(cfg: &RunCfg, spaces: &[Space]) -> RunOut {
                         let case = CaseId { kind, p, idx };
                         let path = write_replay(&prop, &format!("stall_{}", std::process::id()), &json!({
                             "property": prop,
-                            "what": format!("case did not finish within {stall} s (non-termination or pathological slowdown of the real code)"),
+                            "what": format!("case did not finish within {stall} s (non-termination or pathological slowdown of the real code on this input; every reference computation of the harness is polynomial on the enumerated inputs)"),
                             "case": case.to_json(),
                         }));
                         println!("VIOLATION property={prop} replay={path}");
